@@ -61,7 +61,7 @@ KwValid(kw) == /\ TextOK(kw.lc, FALSE) /\ TipArgValid(kw.tip) /\ TextOK(kw.racki
                /\ TextOK(kw.racktype, TRUE) /\ TextOK(kw.tube, FALSE) /\ TextOK(kw.frt, TRUE)
 
 Participants(ev) ==
-  CASE ev.op \in {"add", "remove", "aspirate", "dispense", "evo_aspirate", "evo_dispense"} -> {ev.a.lw}
+  CASE ev.op \in {"add", "remove", "aspirate", "dispense", "evo_aspirate", "evo_dispense", "log", "condense"} -> {ev.a.lw}
     [] ev.op \in {"transfer", "distribute"} -> {ev.a.src, ev.a.dst}
     [] ev.op \in {"external", "rawemit"} -> 1..100   \* acted outside this trace's tracking (another worklist of the same
                                                      \* test; EVO script commands issued by a repository test)
@@ -114,7 +114,7 @@ Common(tr, T, ev) ==
        \A i \in 1..Len(ev.recs) : ev.recs[i].t \in {"A", "D"} => ev.recs[i].cents <= T.wlmaxc),
     Cl("C03.replay", F.robot /\ live /\ ev.op \in TrackedOps,
        Run(T, vol, TrackedComp(tr), ReplayRecs(T, ev)).err = ""),
-    Cl("C11.prefix", live /\ ev.out = "ok",
+    Cl("C11.prefix", live /\ ev.out = "ok" /\ ev.op # "condense",
        \A k \in 1..NLw(tr) : post.hsame[k] >= hn[k] /\ post.hn[k] >= hn[k]),
     Cl("C11.newest", live /\ ev.out = "ok" /\ part # {} /\ ev.op \notin {"external", "rawemit"},
        \A k \in part : post.last[k].s = post.vol[k])
@@ -526,7 +526,7 @@ RowMajor(g, s) == [i \in 1..(g.rows * g.cols) |-> s[((i - 1) % g.cols) * g.rows 
 
 JudgeFullHist(tr, T, ev) ==
   LET post == ev.post IN {
-    Cl("C11.fullprefix", live /\ l > 1 /\ tr.events[l - 1].out = "ok" /\ ev.out = "ok",
+    Cl("C11.fullprefix", live /\ l > 1 /\ tr.events[l - 1].out = "ok" /\ ev.out = "ok" /\ ev.op # "condense",
        \A k \in 1..NLw(tr) :
           LET old == tr.events[l - 1].post.hist[k]  new == post.hist[k] IN
           Len(new) >= Len(old) /\ SubSeq(new, 1, Len(old)) = old),
@@ -545,6 +545,27 @@ JudgeFinal(tr, T, ev) == {
     Cl("C11.snapshots", TRUE,
        /\ Len(ev.a.held) = l - 1
        /\ \A j \in 1..(l - 1) : ev.a.held[j] = tr.events[j].post.vol)
+  }
+
+(***************************************************************************)
+(* Direct use of the history API (C11): Labware.log(label) appends the     *)
+(* current volumes; condense_log(n, label) replaces the last n entries by  *)
+(* one entry holding the newest state, labelled with the given label, the  *)
+(* label of the first condensed entry ("first") or of the last ("last").   *)
+(***************************************************************************)
+Strip(e) == [h |-> e.h, l |-> e.l, s |-> e.s]
+JudgeHistApi(tr, T, ev) ==
+  LET a == ev.a  k == a.lw  before == [i \in 1..Len(a.hist) |-> Strip(a.hist[i])]
+      after == [i \in 1..Len(ev.post.histafter) |-> Strip(ev.post.histafter[i])]
+      n == a.n  len == Len(before)
+      lab == IF a.mode = "given" THEN [h |-> a.label.h, l |-> a.label.l]
+             ELSE IF a.mode = "first" THEN [h |-> before[len - n + 1].h, l |-> before[len - n + 1].l]
+             ELSE [h |-> before[len].h, l |-> before[len].l]
+  IN {
+    Cl("C11.log", ev.op = "log", ev.out = "ok" /\ after = Append(before, [h |-> a.label.h, l |-> a.label.l, s |-> vol[k]])),
+    Cl("C11.condense", ev.op = "condense" /\ n >= 1 /\ n <= len,
+       ev.out = "ok" /\ after = Append(SubSeq(before, 1, len - n), [h |-> lab.h, l |-> lab.l, s |-> before[len].s])),
+    Cl("C11.histvol", TRUE, ev.post.vol = vol)
   }
 
 (***************************************************************************)
@@ -579,6 +600,7 @@ JudgeEvent(tr, T, ev) ==
           [] ev.op = "evo_wash" -> JudgeEvoWash(tr, T, ev)
           [] ev.op = "dilution" -> JudgeDilution(tr, T, ev)
           [] ev.op = "final" -> JudgeFinal(tr, T, ev)
+          [] ev.op \in {"log", "condense"} -> JudgeHistApi(tr, T, ev)
           [] ev.op = "external" -> {}
           [] ev.op = "rawemit" -> {}
           [] OTHER -> {Cl("machinery.unknown_op", TRUE, FALSE)})
